@@ -257,6 +257,12 @@ func shardedNamespace(name string, nSlices, nSlaves int) *models.Namespace {
 
 // drive lets the client tasks run, one released at a time, until all scripts are done.
 func drive(r *simkit.Run, tp *simkit.Tape, maxSteps int, between func()) {
+	driveBusy(r, tp, maxSteps, between, nil)
+}
+
+// driveBusy is drive with a predicate telling whether client operations are still in flight
+// (blocked on simulated time: timeouts, slow backends); the clock is advanced for them.
+func driveBusy(r *simkit.Run, tp *simkit.Tape, maxSteps int, between func(), busy func() bool) {
 	idle := 0
 	for r.Steps < maxSteps && !r.Failed() {
 		r.Settle()
@@ -266,7 +272,7 @@ func drive(r *simkit.Run, tp *simkit.Tape, maxSteps int, between func()) {
 		en := r.Enabled()
 		if len(en) == 0 {
 			// tasks may be blocked on simulated time (timeouts, slow backends)
-			if r.ParkedCount() == 0 && idle > 3 {
+			if r.ParkedCount() == 0 && idle > 3 && (busy == nil || !busy()) {
 				return
 			}
 			idle++
